@@ -133,7 +133,8 @@ theorem dc_ids_disjoint (ra rb : Option Bool) (h : ra.getD true ≠ rb.getD true
   rw [ha] at hb
   cases hra : ra.getD true <;> cases hrb : rb.getD true <;> simp_all [dcOffset]
 
-/-- **Witness (known finding `dc:both-ends-precreate:same-stream-id`)**: the role is `None` until the first
+/-- **Witness (an observation recorded in the evidence, not a C10 finding: with equal ids a message still
+arrives intact in each direction — the two channels are fused into one stream)**: the role is `None` until the first
 remote description arrives, and `None` allocates like the client. An answerer that creates a channel before
 `set_remote_description` therefore gets a client-parity id although it becomes the DTLS *server*: both ends
 allocate stream id 0. The full statement "complementary roles ⇒ disjoint ids" is false for channels created
@@ -288,12 +289,13 @@ theorem sdes_rustrtc_pair (ka kb : List UInt8) (ha : ka.length = sdesGeneratedLe
 
 /-! ### transport plan of the direct modes -/
 
-/-- **mux_agreed**, for independent policies and compatibility modes of the two ends
-(`(muxO, legacyO)` offerer, `(muxA, legacyA)` answerer): the answer carries `a=rtcp-mux` only if the offer
-does (the `retain`), it does iff additionally the answerer's own policy puts it there, the offerer binds an
-RTCP socket exactly when it does not offer mux, and the answerer binds one exactly when the *offer* had no
-mux (`needs_rtcp`). -/
-theorem mux_agreed (muxO legacyO muxA legacyA : Bool) :
+/-- *Lemma (four definitional unfoldings, not a property theorem)*: for independent policies and
+compatibility modes of the two ends the answer carries `a=rtcp-mux` only if the offer does (the `retain`),
+iff additionally the answerer's own policy puts it there; the offerer binds an RTCP socket exactly when it
+does not offer mux, the answerer exactly when the *offer* had no mux (`needs_rtcp`). What the property needs
+— "multiplexing agreed, or both ends have an RTCP socket" — is `mux_agreed_same_policy` (true) and
+`mux_mixed_policy_no_rtcp_socket_witness` (false for mixed policies). -/
+theorem lemma_mux_answer_follows_offer (muxO legacyO muxA legacyA : Bool) :
     let offerMux := sectionHasMux muxO legacyO .offer false
     let answerMux := sectionHasMux muxA legacyA .answer offerMux
     (answerMux = true → offerMux = true) ∧
@@ -312,7 +314,8 @@ theorem mux_agreed_same_policy (muxRequire legacySip : Bool) :
     needsRtcpSocket muxRequire legacySip .answer offerMux = !answerMux := by
   cases muxRequire <;> cases legacySip <;> decide
 
-/-- **Witness (known finding `mux:rtp-mixed-policy:…`)**: "each end has an RTCP socket exactly when RTCP is
+/-- **Witness (an observation recorded in the evidence, not a C10 finding: no clause of the property mentions
+RTCP)**: "each end has an RTCP socket exactly when RTCP is
 not multiplexed" is false for mixed policies: a `Require` offerer facing a `Negotiate` (or LegacySip)
 answerer offers mux, the answer drops it, and *neither* end has bound an RTCP socket — the answerer because
 the offer had mux, the offerer because it offered mux: RTCP has no port to go to. -/
@@ -359,5 +362,15 @@ theorem bundle_agreed (legacySip : Bool) (n : Nat) :
     let ob := willBundle legacySip .offer n false
     willBundle legacySip .answer n ob = ob := by
   cases legacySip <;> simp [willBundle]
+
+/-- **bundle_answer_follows_offer**, independent compatibility modes of the two ends: the answer groups the
+sections only if the offer did, and does so exactly when the answerer is not in LegacySip mode — a LegacySip
+answerer never BUNDLEs even when a Standard peer offers it (the `!LegacySip` conjunct of the answer arm,
+compared with the code by the `muxsdp2` stream). -/
+theorem bundle_answer_follows_offer (legacyO legacyA : Bool) (n : Nat) :
+    let ob := willBundle legacyO .offer n false
+    let ab := willBundle legacyA .answer n ob
+    (ab = true → ob = true) ∧ ab = (!legacyA && ob) := by
+  cases legacyO <;> cases legacyA <;> simp [willBundle]
 
 end RtcModel.Theorems.C10
